@@ -414,7 +414,17 @@ func runAlph(c aCase, o aOracles) (*vh.Violation, vh.Outcome) {
 				idx = 1 // an event with another index on the governance stream
 			}
 			id := simHash("badtx", len(sim.govEvents)+1)
-			ev := &simEvent{Contract: sim.govAddr, BlockHash: b.Hash, TxId: id, EventIndex: idx, Fields: malformedFields(x.A)}
+			fields := malformedFields(x.A)
+			if x.A >= 10 {
+				// an event of another kind (index 1, 2) whose fields happen to look exactly like a message's
+				idx = int32(x.A - 9)
+				snd := aBridgeId
+				if x.A%2 == 1 {
+					snd = aOtherId
+				}
+				fields = msgFields(&msgTruth{Sender: snd, TC: 1, Seq: 800000 + uint64(len(sim.govEvents)), Nonce: 3, Payload: []byte{9, 9}, CL: uint8(x.A % 3)})
+			}
+			ev := &simEvent{Contract: sim.govAddr, BlockHash: b.Hash, TxId: id, EventIndex: idx, Fields: fields}
 			sim.govEvents = append(sim.govEvents, ev)
 			sim.txEvents[id] = []*simEvent{ev}
 			sim.txBlock[id] = b.Hash
@@ -455,6 +465,9 @@ func runAlph(c aCase, o aOracles) (*vh.Violation, vh.Outcome) {
 			sim.faults[[]string{"count", "page", "chaininfo", "header", "mainchain", "txstatus", "txid"}[x.A%7]] = 1 + x.B%2
 		case "pagesize":
 			sim.pageSize = 1 + x.A%5
+		case "countahead":
+			sim.countAhead = 1 + x.A%2
+			hostile = true
 		}
 		sim.mu.Unlock()
 		if x.K == "reobserve" && len(txs) > 0 {
@@ -669,7 +682,7 @@ func runAlph(c aCase, o aOracles) (*vh.Violation, vh.Outcome) {
 
 func genAlph(t *rapid.T, liveness bool) aCase {
 	c := aCase{Mainnet: rapid.Bool().Draw(t, "mainnet"), Page: rapid.SampledFrom([]int{1, 2, 3, 100}).Draw(t, "page")}
-	kinds := []string{"emit", "emit", "emit", "emit", "advance", "advance", "orphan", "malformed", "burst", "pagesize"}
+	kinds := []string{"emit", "emit", "emit", "emit", "advance", "advance", "orphan", "malformed", "burst", "pagesize", "countahead"}
 	if !liveness {
 		kinds = append(kinds, "reobserve", "reobserve", "fault")
 	}
@@ -697,11 +710,13 @@ func genAlph(t *rapid.T, liveness bool) aCase {
 		case "burst":
 			return aOp{K: k, A: rapid.IntRange(0, 3).Draw(t, "n"), B: rapid.IntRange(0, 2).Draw(t, "cl"), C: rapid.IntRange(0, 2).Draw(t, "late"), D: rapid.IntRange(0, 50).Draw(t, "d")}
 		case "malformed":
-			return aOp{K: k, A: rapid.IntRange(0, 9).Draw(t, "kind")}
+			return aOp{K: k, A: rapid.IntRange(0, 11).Draw(t, "kind")}
 		case "fault":
 			return aOp{K: k, A: rapid.IntRange(0, 6).Draw(t, "what"), B: rapid.IntRange(0, 1).Draw(t, "n")}
 		case "pagesize":
 			return aOp{K: k, A: rapid.IntRange(0, 4).Draw(t, "size")}
+		case "countahead":
+			return aOp{K: k, A: rapid.IntRange(0, 1).Draw(t, "n")}
 		}
 		return aOp{K: "reobserve", A: rapid.IntRange(-1, 9).Draw(t, "tx")}
 		}())
